@@ -1,9 +1,12 @@
 """C18 — trim and crop return the minimal window, cells / coordinates / attributes intact.
 
 Engine E1.  trim: every raster of each listed shape over {1 (kept), 0, NaN} (ints: {1, 0, 2}) x every spelling of the
-exclusion sets {NaN (default)}, {0}, {0, NaN} (ints also {2}, {0, 2}, {0, 2, NaN} in every order).  crop: every zones
+exclusion sets {} (EMPTY tuple / list: nothing is excluded, not even NaN, so the window is the whole raster), {NaN (default)},
+{0}, {0, NaN} (ints also {2}, {0, 2}, {0, 2, NaN} in every order).  crop: every zones
 raster over {0, 1, 2} x ORDERED id lists (every permutation of every non-empty subset of the ids, as list and / or tuple; the
-3x3 space: ascending list / descending tuple per subset) on an all-distinct values raster.  *_<L> / *_z<L>_v<L> spaces: the same
+3x3 space: ascending list / descending tuple per subset) and id lists with REPEATED ids (every sequence of length 2..3 over
+the alphabet in which an id occurs more than once, e.g. (1, 1), [2, 2, 2], (0, 2, 0); the large spaces: the doubles (a, a)
+only) - the window depends on the SET of ids - on an all-distinct values raster.  *_<L> / *_z<L>_v<L> spaces: the same
 enumeration with the raster (trim) / zones and values (crop) held in memory layout L (F, T = transposed view, S = strided) on
 the non-square shapes 2x3, 3x2, 3x4.  Reference model (in this
 file, numpy only): bounding box of np.argwhere(kept); the result must be the numpy slices of that box of the
@@ -23,10 +26,12 @@ LEVEL = "model_checking"
 RULE = ("trim spaces: rank = (mixed-radix number of the cell letters of the raster) x (spelling of the exclusion "
         "values); crop spaces: rank = (number of the zones raster over the zone alphabet) x (ordered id list: each "
         "permutation of each non-empty subset of the alphabet, as list / tuple; crop_3x3: each subset once, ascending list or "
-        "descending tuple); spaces with a layout suffix (_F, _T, _S; _z<L>_v<L> for crop) hold the same logical rasters in "
+        "descending tuple; then the lists with repeated ids: every sequence of length 2..3 over the alphabet that is not "
+        "repetition-free, list / tuple alternating - mode suffix +d - or only the doubles (a, a) - suffix +d2); spaces with a layout suffix (_F, _T, _S; _z<L>_v<L> for crop) hold the same logical rasters in "
         "another memory layout; a case is non-trivial when the expected window is smaller than the raster (trimx spaces: "
         "or when a border row / column consists only of cells that are excluded or are the truncated / wrapped image, in "
-        "the raster's dtype, of a listed value that no cell equals); rasters whose "
+        "the raster's dtype, of a listed value that no cell equals; EMPTY exclusion set: when a border row / column is all "
+        "NaN, i.e. when the default exclusion would give another window); rasters whose "
         "cells are all excluded (trim) / hold none of the ids (crop) are generated and counted but not asserted; "
         "distinct = distinct result rasters")
 ASSUMPTIONS = [
@@ -41,6 +46,9 @@ ASSUMPTIONS = [
     "coordinate and attrs)",
     "exclusion values are real numbers compared exactly: a fraction or an integer outside the raster dtype's range "
     "equals no cell of an integer raster (trimx spaces; magnitudes <= 65537 so that float64 holds them exactly)",
+    "the EMPTY exclusion set is passed as () and as []: no cell is excluded, NaN cells included (NaN counts as excluded only "
+    "when listed), so the minimal window is the whole raster; zones_ids of crop may list an id more than once (the window "
+    "is that of the set of listed ids)",
     "an exclusion set holding both 0 and NaN is passed in the spellings (0.0, nan), [nan, 0.0] (one numeric type) and, in "
     "the small trim_spellings_* spaces, (0, nan), (nan, 0), [0, nan] (Python int next to float)",
 ]
@@ -50,7 +58,8 @@ KEEP_F = (1, 0, NAN)          # float rasters: 1 is always kept
 KEEP_I = (1, 0, 2)            # int rasters: no NaN
 
 # (label, argument (callable so that lists are fresh objects), excluded values for the oracle)
-SPELL_COMMON = [("default", lambda: OMIT, (NAN,)), ("(nan,)", lambda: (NAN,), (NAN,)),
+SPELL_COMMON = [("()", lambda: (), ()), ("[]", lambda: [], ()),
+                ("default", lambda: OMIT, (NAN,)), ("(nan,)", lambda: (NAN,), (NAN,)),
                 ("(0,)", lambda: (0,), (0,)), ("[0]", lambda: [0], (0,)),
                 ("(0.0,nan)", lambda: (0.0, NAN), (0, NAN)), ("[nan,0.0]", lambda: [NAN, 0.0], (NAN, 0))]
 SPELL_INT = SPELL_COMMON + [("(0,2)", lambda: (0, 2), (0, 2)), ("[2,0]", lambda: [2, 0], (2, 0)), ("(2,)", lambda: (2,), (2,))]
@@ -62,7 +71,7 @@ SPELL_HETERO = [("(0,nan)", lambda: (0, NAN), (0, NAN)), ("(nan,0)", lambda: (NA
                 ("[0,nan]", lambda: [0, NAN], (0, NAN))]
 
 SMALL = 12000                 # spaces up to this size are explored as a single shard
-CORE = ("default", "(0,)", "(0.0,nan)", "(0,2)")      # one spelling per exclusion set
+CORE = ("()", "default", "(0,)", "(0.0,nan)", "(0,2)")      # one spelling per exclusion set
 # trim: (shape, dtype, 'full' = every spelling | 'core' | 'two' = 2-letter alphabet {kept, excluded}[, memory layout]);
 # the alphabet follows from the dtype.  (3x3 f8 runs the 'core' spellings in the quick tier since the layout dimension was
 # added - every spelling x every raster runs on 1x6, 6x1, 2x3, 3x2 - and all spellings in the thorough tier.)
@@ -84,7 +93,7 @@ TRIM["thorough"] = TRIM["quick"] + [((3, 4), "f8", "core"), ((2, 5), "i8", "core
                                     ((2, 3), "f8", "full", "S"), ((3, 2), "i8", "full", "S"), ((3, 4), "i8", "two", "T"),
                                     ((3, 4), "f8", "two", "S"), ((3, 3), "f8", "core", "F"), ((2, 5), "f8", "core", "T")]
 TRIM = {t: [e if len(e) == 4 else e + ("C",) for e in v] for t, v in TRIM.items()}
-TWO = {"f": ((1, NAN), ("default", "(nan,)")), "i": ((1, 0), ("(0,)", "[0]"))}     # 'two': alphabet, spellings
+TWO = {"f": ((1, NAN), ("()", "default", "(nan,)")), "i": ((1, 0), ("(0,)", "[0]"))}     # 'two': alphabet, spellings
 
 
 def trim_spellings(dtype, which):
@@ -135,14 +144,16 @@ def cast_image(e, dtype):
 # 'both' = every permutation of every non-empty subset of the alphabet (the ORDER of zones_ids is part of the case), each as
 # list and as tuple; 'perms' = every permutation, list / tuple alternating; 'alt' = each subset once, ascending list or
 # descending tuple alternating
+# a '+d' suffix adds the lists with REPEATED ids (every sequence of length 2..3 over the alphabet that is not repetition-free,
+# list / tuple alternating), '+d2' only the doubles (a, a)
 CROP = {
-    "quick": [((1, 1), "i8", "f8", "both"), ((1, 6), "i8", "f8", "both"), ((6, 1), "f8", "i8", "both"),
-              ((3, 3), "i8", "f8", "alt"), ((2, 4), "f8", "i8", "perms"),
-              ((2, 3), "i8", "f8", "perms", ("F", "F")), ((3, 2), "i8", "f8", "perms", ("F", "F")),
-              ((2, 3), "f8", "i8", "perms", ("T", "T")), ((3, 2), "f8", "i8", "perms", ("T", "T")),
-              ((3, 4), "i8", "f8", "perms", ("F", "F"), (0, 1))],
+    "quick": [((1, 1), "i8", "f8", "both+d"), ((1, 6), "i8", "f8", "both+d"), ((6, 1), "f8", "i8", "both+d"),
+              ((3, 3), "i8", "f8", "alt+d2"), ((2, 4), "f8", "i8", "perms+d2"),
+              ((2, 3), "i8", "f8", "perms+d", ("F", "F")), ((3, 2), "i8", "f8", "perms+d", ("F", "F")),
+              ((2, 3), "f8", "i8", "perms+d", ("T", "T")), ((3, 2), "f8", "i8", "perms+d", ("T", "T")),
+              ((3, 4), "i8", "f8", "perms+d2", ("F", "F"), (0, 1))],
 }
-CROP["thorough"] = CROP["quick"] + [((3, 4), "i8", "f8", "alt"), ((3, 3), "f8", "f8", "both"), ((2, 5), "f8", "f8", "alt"),
+CROP["thorough"] = CROP["quick"] + [((3, 4), "i8", "f8", "alt"), ((3, 3), "f8", "f8", "both+d"), ((2, 5), "f8", "f8", "alt+d2"),
                                     ((4, 2), "i4", "f4", "both"), ((3, 2), "i4", "f4", "both"),
                                     ((1, 9), "i8", "f8", "alt"), ((9, 1), "i8", "f8", "alt"),
                                     ((3, 3), "i4", "f8", "perms"),
@@ -160,6 +171,15 @@ def id_spellings(alphabet, mode):
     sets = [s for k in range(1, len(alphabet) + 1) for s in itertools.combinations(alphabet, k)]
     as_list = lambda s: (repr(list(s)), (lambda: list(s)), tuple(s))        # noqa: E731
     as_tuple = lambda s: (repr(tuple(s)), (lambda: tuple(s)), tuple(s))     # noqa: E731
+    if "+" in mode:         # lists in which an id is repeated
+        mode, dup = mode.split("+")
+        if dup == "d2":
+            rep = [(a, a) for a in alphabet]
+        elif dup == "d":
+            rep = [q for k in (2, 3) for q in itertools.product(alphabet, repeat=k) if len(set(q)) < k]
+        else:
+            raise ValueError(dup)
+        return id_spellings(alphabet, mode) + [as_list(q) if i % 2 else as_tuple(q) for i, q in enumerate(rep)]
     if mode == "alt":
         return [as_tuple(tuple(reversed(s))) if i % 2 else as_list(s) for i, s in enumerate(sets)]
     ordered = [p for s in sets for p in itertools.permutations(s)]
@@ -178,9 +198,11 @@ BOUNDS = {t: {"trim": [dict(shape=list(s), dtype=d, alphabet=[repr(float(v)) if 
                        for s, zd, vd, sp, lay, al in CROP[t]],
               "layouts": {"C": "C-contiguous", "F": "np.asfortranarray", "T": "DataArray.transpose(*dims) view of the "
                           "transposed C-ordered array", "S": "every second column of a C-ordered array twice as wide"},
-              "trimmed": "quick: trim 3x3 float64 runs one spelling per exclusion set ('core', 3 of 6) instead of every "
+              "trimmed": "quick: trim 3x3 float64 runs one spelling per exclusion set ('core', 4 of 8) instead of every "
                          "spelling since the layout / id-order dimensions were added; every spelling x every raster runs on "
-                         "1x6, 6x1, 2x3, 3x2 (quick) and on 3x3 (thorough)"}
+                         "1x6, 6x1, 2x3, 3x2 (quick) and on 3x3 (thorough); crop id lists with repeated ids: every "
+                         "sequence of length 2..3 with a repetition on 1x1, 1x6, 6x1, 2x3, 3x2 ('+d'), only the doubles "
+                         "(a, a) on 3x3, 2x4 and the binary 3x4 ('+d2')"}
           for t in ("quick", "thorough")}
 
 
@@ -354,6 +376,9 @@ class TrimSpace(_Base):
                 problems = [("raises-%s" % type(ex).__name__, exc_text(ex))]
             t, b, l, rr = box
             nontrivial = (b - t + 1, rr - l + 1) != a.shape
+            if len(excl) == 0 and bbox(kept_mask(a, (NAN,))) != box:
+                nontrivial = True       # empty exclusion set on a raster with an all-NaN border line
+                out.count("trim: empty exclusion set, raster has an all-NaN border row / column (kept)")
             if self.trimx:
                 # would comparing in the raster's dtype give another window?  (bookkeeping only)
                 near = kept_mask(a, tuple(excl) + tuple(cast_image(e, self.dtype) for e in excl))
@@ -379,7 +404,7 @@ class TrimSpace(_Base):
                               % (label, self.dtype, lit(a), self.ktag, "; ".join(p[1] for p in problems), t, b, l, rr),
                               case=self.describe(rank), sig=sig, observed=res if o is not None else problems[0][1],
                               expected={"window_rows": [t, b], "window_columns": [l, rr], "cells": a[t:b + 1, l:rr + 1]})
-            elif out.want_sample() and nontrivial and si > 1:
+            elif out.want_sample() and nontrivial and label not in ("default", "(nan,)"):
                 out.sample({"raster": a, "values": label, "result": res})
 
 
